@@ -47,6 +47,7 @@ type Run struct {
 	transitions int64
 	traces      int64
 	samples     []any
+	autoSamples []any // case keys kept from Eval, used when the harness wrote out no sample itself
 	outcomes    map[string]int64
 	obs         []any
 	obsSeen     map[string]bool
@@ -140,6 +141,9 @@ func (r *Run) Assume(s string) { r.mu.Lock(); r.assumptions = append(r.assumptio
 func (r *Run) Eval(key string) {
 	r.mu.Lock()
 	r.evaluations++
+	if key != "" && len(r.autoSamples) < 6 && (r.evaluations == 1 || r.evaluations == 10 || r.evaluations == 100 || r.evaluations == 1000 || r.evaluations == 10000 || r.evaluations == 100000) {
+		r.autoSamples = append(r.autoSamples, map[string]any{"case_key": key, "ordinal": r.evaluations})
+	}
 	if key != "" {
 		h := sha256.Sum256([]byte(key))
 		var k [8]byte
@@ -275,6 +279,9 @@ func (r *Run) Finish() {
 		return
 	}
 	r.finished = true
+	if len(r.samples) == 0 {
+		r.samples = r.autoSamples
+	}
 	outs := make([]string, 0, len(r.outcomes))
 	for k := range r.outcomes {
 		outs = append(outs, k)
